@@ -75,6 +75,10 @@ CHECKS = {
    "rapid-generated programs whose statement boundaries and sub-expressions are suspension sites controlled by a run-time bit mask; for every program the traces under the empty mask, the full mask and rapid-drawn subsets must be identical to each other, to the trace of the same text built with non-blocking yield functions (direct compilation form) and to the native run",
    "trusts the native Go toolchain as reference; suspension uses a channel closed by a helper goroutine, no other goroutine is runnable in between; sites whose relative evaluation order the spec leaves open are not instrumented",
    "property-based metamorphic testing over suspension subsets plus differential testing against native Go (rapid)"),
+ "C10": ("exploration",
+   "rapid-generated multi-package programs (import DAGs with drawn names, 1-3 files per package with adversarial names, initialiser dependencies against declaration order and across files through functions, methods, closures, generics and imports, suspending initialisers and init functions, go:linkname references to functions and value/pointer methods in every import direction): the GopherJS trace must be one block per package in a topological order of the import graph, each block equal to the native run of a mirror tree whose file names reproduce the file order observed under GopherJS, the observed order of each file-name pair must be the same wherever it occurs; derived programs with unsupported directives must be rejected by the build",
+   "trusts the native Go toolchain as reference for the per-package initialisation trace; the order among independent packages is not compared (the property leaves it open); GopherJS' file order is observed, not assumed; native linkname builds need an empty .s file which GopherJS ignores",
+   "property-based differential testing of generated package graphs (rapid) with native Go as oracle plus structural invariants over the trace"),
 }
 PENDING_REASON = "check not built yet in this session (work in progress; see DESIGN.md §8 for the order)"
 props=[json.loads(l)['id'] for l in open('/verif/properties.jsonl')]
